@@ -56,6 +56,8 @@ def cast__string_types(self: XPathConstructor, value: ta.AtomicType) -> str | An
 @constructor('double')
 @constructor('float')
 def cast__numeric_types(self: XPathConstructor, value: ta.AtomicType) -> ta.NumericType:
+    if isinstance(value, decimal.Decimal) and not value and self.symbol != 'decimal':
+        value = decimal.Decimal(0)  # the operand is an xs:decimal: it has no negative zero
     try:
         result = self.type_class.make(value, parser=self.parser)
     except ValueError as err:
